@@ -82,6 +82,11 @@ CHECKS = {
             "Generated-input search with an independent objective and independent optima (closed forms); optimality is refutable only ('any other feasible point' is sampled).",
             "Trusted: vlib/refmodel.py NLL, vlib/refstats.py closed forms; tol_opt 2e-4 (scipy) / 2e-3 (minuit) on 2NLL; two recorded known findings (stitching with every parameter fixed; one SLSQP false-convergence input).",
             "DESIGN.md#c05"),
+    "C14": ("exploration",
+            "Hypothesis-generated sample vectors with ties (exact tail-fraction oracle), generated specs/points with seeded sampling (shape, integrality, two moments at 6 standard errors), and closed-form counting families where the toy CL_s+b / CL_b are compared with the exact tail probability obtained by finite summation over Poisson counts at the conditional best-fit nuisances",
+            "Generated-input search with exact reference probabilities; statistical comparisons use 6 standard errors of exactly known sampling distributions and seeded RNGs, so a run is reproducible and the false-alarm probability is < 1e-6.",
+            "Trusted: vlib/refstats.py closed forms; scipy.stats.poisson.pmf for the exact sums; distributional claims are tested through two moments and exact tail masses only.",
+            "DESIGN.md#c14"),
 }
 
 NOT_YET = "check not built yet in this session (work in progress; the design in DESIGN.md section 5 applies)"
